@@ -164,14 +164,16 @@ def stream_typed_ranking(ctx):
                    "a string and an int column that are one-to-one functions of it, an independent int column: entropy = log2 k +- 0.15, one-to-one >= 0.6, "
                    "independent <= 0.25; non-trivial = every table")
     for it in range(ctx.scale(3, 16)):
-        n = R.choice([1000, 1500]); k = R.choice([2, 3, 4, 5, 8])
+        n = R.choice([1000, 1500]); k = [4, 8, 6][it] if it < 3 else R.choice([2, 3, 4, 5, 6, 7, 8])
         # the first tables always have sub-second spacing, the others vary
         step = [pd.Timedelta(250, "us"), pd.Timedelta(100, "ms")][it] if it < 2 else R.choice([pd.Timedelta(250, "us"), pd.Timedelta(100, "ms"), pd.Timedelta(1, "s"), pd.Timedelta(1, "D")])
         base = pd.Timestamp("2021-03-04 10:11:12") + pd.Timedelta(R.randrange(10**6), "us")
         idx = [i % k for i in range(n)]; R.shuffle(idx)
         perm = list(range(k)); R.shuffle(perm)
         df = pd.DataFrame({"t": [base + step * i for i in idx], "s": [f"label-{perm[i]}" for i in idx], "i": [7 * perm[i] + 3 for i in idx],
-                           "r": [R.randrange(k) for _ in range(n)]})
+                           "r": [R.randrange(k) for _ in range(n)],
+                           # independent, 8 categories spread over five magnitudes: after normalisation its tree is many levels deeper than the others'
+                           "p": [[0.01, 0.05, 0.25, 1.0, 5.0, 25.0, 100.0, 500.0][R.randrange(8)] for _ in range(n)]})
         conv = [get_convertor(df, c) for c in df.columns]
         F = Forest(AnonymizationParams(salt=R.getrandbits(64).to_bytes(8, "little")), BucketizationParams(), UniquePidCountersFactory(),
                    pd.DataFrame({"id": range(n)}), apply_convertors(conv, df))
@@ -187,6 +189,11 @@ def stream_typed_ranking(ctx):
                                 rec, rank_fp(dm[0, j], k))
         if dm[0, 3] > 0.25:
             ctx.oracle_fail(f"independent column scores dependence {dm[0, 3]:.3f} > 0.25 with a timestamp column (k={k}, n={n})", rec, "ranking")
+        for j, nm in ((0, "timestamp"), (1, "string"), (2, "int"), (3, "int")):
+            rec[f"dep({df.columns[j]},p)"] = round(float(dm[j, 4]), 3)
+            if dm[j, 4] > 0.25:
+                ctx.oracle_fail(f"independent real column of 8 categories spread over five magnitudes scores dependence {dm[j, 4]:.3f} > 0.25 with the {k}-category {nm} "
+                                f"column {df.columns[j]!r} (n={n})", rec, "ranking")
 
 
 def run(ctx, built):
